@@ -393,7 +393,28 @@ func runC42(c *eng.Ctx) {
 	okIgn := true
 	why := ""
 	var first *ssa.Phi
+	// the suppression flag may BE the loop's «first» flag (`ignore := first`):
+	// a loop-header φ that is true initially and false on every back edge
+	isHeaderFlag := false
+	for j := range ignore.Edges {
+		if ignore.Block().Dominates(ignore.Block().Preds[j]) {
+			isHeaderFlag = true
+		}
+	}
+	if isHeaderFlag {
+		first = ignore
+		for j, e := range ignore.Edges {
+			if ignore.Block().Dominates(ignore.Block().Preds[j]) && !c42FalseGiven(e, ignore) {
+				okIgn, why = false, "the flag can be true again after the first iteration: "+eng.Render(e)
+			}
+		}
+		c.Check("R5", "suppression-first-iteration-only", ignore.Pos(), okIgn, "the suppression flag can be set in the first iteration only (it is false on every back edge)", why)
+		okIgn, first = true, nil
+	}
 	for j, e := range ignore.Edges {
+		if isHeaderFlag {
+			break
+		}
 		if constBoolIs(e, false) {
 			continue
 		}
@@ -423,7 +444,9 @@ func runC42(c *eng.Ctx) {
 			}
 		}
 	}
-	c.Check("R5", "suppression-first-iteration-only", ignore.Pos(), okIgn && first != nil, "the suppression flag can be set in the first iteration only («first» is false on every back edge)", why)
+	if !isHeaderFlag {
+		c.Check("R5", "suppression-first-iteration-only", ignore.Pos(), okIgn && first != nil, "the suppression flag can be set in the first iteration only («first» is false on every back edge)", why)
+	}
 
 	// ---- R6 ----
 	nIgn := 0
